@@ -568,6 +568,10 @@ class C11(Prop):
             ndim, n = rng.choice([1, 2, 2]), min(n, 3)
         if geom == "long" or (geom == "stack" and rng.random() < 0.3):  # lists longer than a handful
             ndim, n = min(ndim, 2), rng.randint(7, 40)
+            if rng.random() < 0.12:  # several hundred images (visit counters, chunked loops)
+                ndim, n = 1, rng.randint(300, 600)
+        if geom == "free" and not structured and rng.random() < 0.04:  # more dimensions than the property names
+            ndim, n = rng.choice([4, 5]), min(n, 3)
         special = rng.random() < 0.4  # images drawn from the value classes
         places = self.places(rng, geom, ndim, n)
         case = {"kind": "structured" if structured else "plain", "ndim": ndim, "mode": mode, "fill": fill}
@@ -633,10 +637,12 @@ class C11(Prop):
             case["arrays"] = arrs
             if rng.random() < 0.25:  # a common translation, also large and beyond the exactly representable doubles
                 big = rng.random() < 0.4
-                t = [rng.choice([2 ** 53, -(2 ** 53), 2 ** 53 + 2, 3 - 2 ** 55, 2 ** 56 + 1, -(2 ** 57) + 5]) + rng.randint(-3, 3)
+                t = [rng.choice([2 ** 53, -(2 ** 53), 2 ** 53 + 2, 3 - 2 ** 55, 2 ** 56 + 1, -(2 ** 57) + 5, 2 ** 63 - 40, 20 - 2 ** 63,
+                                 2 ** 63 + 9, 2 ** 64 + 3, -(2 ** 70)]) + rng.randint(-3, 3)
                      if big else rng.randint(-1000, 1000) for _ in range(ndim)]
                 for a in case["arrays"]:
                     a["off"] = [o + d for o, d in zip(a["off"], t)]
+            self.plain_classes(rng, case)
         # memory layout of every input and the container of the offsets
         for a in case["arrays"]:
             if rng.random() < 0.35:
@@ -664,9 +670,95 @@ class C11(Prop):
         if rng.random() < 0.3:
             case["repeat"] = True
         # metamorphic leg
-        if len(case["arrays"]) <= 4 and (tier == "thorough" or rng.random() < 0.25):
+        if len(case["arrays"]) <= 4 and "then" not in case and (tier == "thorough" or rng.random() < 0.25):
             case["meta"] = {"t": [rng.choice([rng.randint(-9, 9), rng.randint(-10 ** 6, 10 ** 6)]) for _ in range(ndim)]}
         return case
+
+    FIRST_DT = ["f8", "f8", "f4", "f4", "i8", "i4", "u2", "u1", "b1"]
+
+    @staticmethod
+    def as_dtype(a, dt, rng, integers=False):
+        """the image description with its values made values of dtype `dt` (`integers`: whole numbers in float images too)"""
+        unsigned = dt in ("u1", "u2")
+
+        def conv(v):
+            if dt in ("f8", "f4"):
+                return 4 * v if integers and isnum(v) else v
+            if not isnum(v):
+                v = rng.randint(0, 5)
+            if dt == "b1":
+                return 4 * (v % 2)
+            v = max(-100, min(100, v))
+            return 4 * (abs(v) if unsigned else v)
+        a["data"] = [conv(v) for v in a["data"]]
+        a.pop("negzero", None) if dt not in ("f8", "f4") else None
+        if dt != "f8":
+            a["dtype"] = dt
+        return a
+
+    def plain_classes(self, rng, case):
+        """classes of plain cases beside the float64 images: images of several dtypes in one list, infinite values,
+        zero-length axes, a signed zero as fill, histories of calls on the same objects, a result fed into a second merge"""
+        arrs, ndim = case["arrays"], case["ndim"]
+        small = len(arrs) <= 40 and all(len(a["data"]) <= 4096 for a in arrs)
+        if rng.random() < 0.3:  # dtypes: the first image decides the canvas
+            first = rng.choice(self.FIRST_DT)
+            integers = rng.random() < 0.5
+            unsigned = first in ("u1", "u2")
+            for i, a in enumerate(arrs):
+                dt = first if i == 0 else rng.choice(["f8", "f8", "f4", "i8", "i4", "i2", "u1", "u2", "b1", "b1"])
+                self.as_dtype(a, dt, rng, integers)
+                if unsigned:  # an unsigned canvas takes no negative value
+                    a["data"] = [abs(v) if isnum(v) else v for v in a["data"]]
+            if unsigned and isnum(case["fill"]):
+                case["fill"] = abs(case["fill"])
+            if integers and isnum(case["fill"]) and rng.random() < 0.7:
+                case["fill"] = 4 * case["fill"]
+        if rng.random() < 0.1:  # infinite pixel values in the floating-point images (one sign only in most cases)
+            signs = ["inf"] if rng.random() < 0.35 else ["-inf"] if rng.random() < 0.5 else ["inf", "-inf"]
+            p = 0.4 if len(signs) == 2 else rng.choice([0.1, 0.3])
+            for a in arrs:
+                if a.get("dtype", "f8") in ("f8", "f4"):
+                    a["data"] = [rng.choice(signs) if rng.random() < p else v for v in a["data"]]
+        if small and rng.random() < 0.05:  # an image with a zero-length axis (mostly beside others, inside their box)
+            a = rng.choice(arrs)
+            a["shape"][rng.randrange(ndim)] = 0
+            a["data"] = []
+            if len(arrs) > 1 and rng.random() < 0.7:
+                b = rng.choice([x for x in arrs if x is not a])
+                a["off"] = list(b["off"])
+        if rng.random() < 0.03:
+            case["fill"] = "-0"
+        if small and rng.random() < 0.15:  # the caller edits the images in place and merges again (one to three times)
+            then = []
+            for _ in range(rng.choice([1, 1, 2, 3])):
+                edits = []
+                for _ in range(rng.randint(1, 4)):
+                    i = rng.randrange(len(arrs))
+                    if not arrs[i]["data"]:
+                        continue
+                    k = rng.randrange(len(arrs[i]["data"]))
+                    dt = arrs[i].get("dtype", "f8")
+                    v = rng.choice([None, None, 0, rng.randint(-20, 20), rng.randint(-20, 20)])
+                    v = self.as_dtype({"data": [v]}, dt, rng)["data"][0]
+                    if dt in ("u1", "u2") or arrs[0].get("dtype") in ("u1", "u2"):
+                        v = abs(v) if isnum(v) else v
+                    edits.append([i, k, v])
+                st = {"edits": edits}
+                if rng.random() < 0.3:
+                    st["mode"] = rng.choice(["replace", "mean", "sum"])
+                if rng.random() < 0.3 and arrs[0].get("dtype") not in ("u1", "u2"):
+                    st["fill"] = rng.choice([None, 0, 40, -7])
+                if rng.random() < 0.2:
+                    st["repeat"] = True
+                then.append(st)
+            case["then"] = then
+        elif small and rng.random() < 0.1 and all(a.get("dtype", "f8") == "f8" for a in arrs):
+            # the result becomes the first image of a second merge with further images (tiling)
+            lo = [min(a["off"][k] for a in arrs) for k in range(ndim)]
+            case["feed"] = [self.gen_array(rng, ndim, place=([l + rng.randint(-2, 4) for l in lo],
+                                                             [rng.randint(1, 4) for _ in range(ndim)]))
+                            for _ in range(rng.choice([1, 1, 2]))]
 
     def many(self, n, mode, fill):
         """n one-pixel images on one pixel of a 1x2 base (visit counters of any width must not wrap)"""
@@ -708,6 +800,53 @@ class C11(Prop):
             yield {"kind": "structured", "ndim": 2, "mode": mode, "fill": fill, **extra, "arrays": [
                 {"off": [2, 3], "shape": [1, 2], "fields": [fz8("A", [4, 8]), fz8("B", [0, None])]},
                 {"off": [4, 1], "shape": [1, 2], "fields": [fz8("B", [12, 16])]}]}
+        # images of several dtypes in one list, in every order; the first decides the canvas.  A: float64 with NaNs and
+        # quarters, W: float64 whole numbers with a NaN, B: uint16, C: a boolean mask, D: float32 with a NaN, E: int32 on a
+        # different footprint
+        A = {"off": [0, 0], "shape": [2, 2], "data": [5, None, None, -6]}
+        W = {"off": [0, 0], "shape": [2, 2], "data": [8, None, 12, None]}
+        B = {"off": [0, 0], "shape": [2, 2], "data": [4, 8, 12, 0], "dtype": "u2"}
+        C = {"off": [0, 0], "shape": [2, 2], "data": [4, 0, 4, 0], "dtype": "b1"}
+        D = {"off": [0, 1], "shape": [2, 2], "data": [None, 2, 6, None], "dtype": "f4"}
+        E = {"off": [1, -1], "shape": [1, 3], "data": [-8, 4, 20], "dtype": "i4"}
+        lists = [list(p) for p in itertools.permutations([A, B, C])] + [list(p) for p in itertools.permutations([W, B, E])]
+        lists += [[D, B, A], [D, E, C, A], [A, D], [W, E], [B, W], [C, W], [E, B], [C, C], [B], [C], [D]]
+        for i, lst in enumerate(lists):
+            for mode in ("replace", "mean", "sum"):
+                for fill in (None, 0, 40):
+                    c = {"kind": "plain", "ndim": 2, "mode": mode, "fill": fill, "arrays": lst}
+                    if (i + len(mode)) % 4 == 0 and len(lst) > 1:
+                        c["meta"] = {"t": [3, -2]}
+                    yield c
+        # infinite values: one sign (the IEEE sum is that infinity), both signs on one pixel (IEEE sum NaN: recorded only)
+        inf1 = {"off": [0], "shape": [3], "data": ["inf", 4, None]}
+        inf2 = {"off": [1], "shape": [3], "data": [8, "inf", "-inf"]}
+        inf3 = {"off": [0], "shape": [4], "data": [4, "-inf", 12, 16]}
+        for mode in ("replace", "mean", "sum"):
+            for fill in (None, 0, 40):
+                pl = {"kind": "plain", "ndim": 1, "mode": mode, "fill": fill}
+                yield {**pl, "arrays": [inf1, {**inf2, "data": [8, "inf", 4]}], "meta": {"t": [5]}}
+                yield {**pl, "arrays": [inf3, {"off": [1], "shape": [1], "data": ["-inf"], "dtype": "f4"}, {"off": [1], "shape": [2], "data": [4, 8], "dtype": "i8"}]}
+                yield {**pl, "arrays": [inf1, inf2, inf3]}
+                yield {**pl, "arrays": [inf2, inf3, {"off": [2], "shape": [2], "data": [20, 20]}]}
+        # histories: the caller edits the images in place (values, NaN pattern) and merges again, with another mode / fill;
+        # the first result is fed into a second merge; an image with a zero-length axis; a signed zero as fill
+        h1 = {"off": [0, 0], "shape": [2, 2], "data": [4, 8, None, 16]}
+        h2 = {"off": [1, 1], "shape": [2, 2], "data": [None, 8, 8, 0]}
+        for mode in ("replace", "mean", "sum"):
+            for fill in (None, 0, 40):
+                pl = {"kind": "plain", "ndim": 2, "mode": mode, "fill": fill}
+                yield {**pl, "arrays": [h1, h2], "then": [{"edits": [[0, 3, None], [1, 0, 20]]},
+                                                         {"edits": [[0, 3, 4], [0, 0, None]], "mode": "sum", "fill": 0, "repeat": True},
+                                                         {"edits": [], "mode": "mean", "fill": None}]}
+                yield {**pl, "arrays": [h1, {**h2, "layout": "strided"}, {**h1, "off": [0, 1], "layout": "ro"}], "share_objects": True,
+                       "then": [{"edits": [[2, 1, -8], [1, 3, None]]}]}
+                yield {**pl, "arrays": [h1, h2], "feed": [{"off": [0, 2], "shape": [2, 2], "data": [4, None, 0, -4]}]}
+                yield {**pl, "arrays": [h2], "feed": [h1, {"off": [3, 3], "shape": [1, 1], "data": [12]}]}
+                yield {**pl, "arrays": [h1, {"off": [1, 1], "shape": [0, 2], "data": []}, h2]}
+                yield {**pl, "arrays": [{"off": [0, 1], "shape": [2, 0], "data": []}, h1]}
+                yield {**pl, "arrays": [h1, {"off": [7, 7], "shape": [0, 0], "data": []}]}
+                yield {**pl, "fill": "-0", "arrays": [h1, {**h2, "off": [3, 3]}]}
         # value classes: a blank (all-zero, also -0.0) tile beside a signal tile and a tile with some zeros; an image and
         # its negative; an image that equals the fill; zeros with NaNs; one zero pixel alone
         sig = {"off": [0, 0], "shape": [2, 2], "data": [4, 8, 12, 16]}
@@ -825,7 +964,7 @@ class C11(Prop):
             feats.add("dtype:infinity-into-integer-canvas(recorded only)")
         impl = {k: v for k, v in got.items() if k not in ("msg", "dtype")}
         if "data" in impl and impl.get("shape") == rep["shape"] and len(impl["data"]) == len(model):
-            if any(not j and x != m for j, x, m in zip(judged, impl["data"], model)):
+            if whole and any(not j and m != "undef" and x != m for j, x, m in zip(judged, impl["data"], model)):
                 feats.add("unjudged-pixel-differs-from-model(recorded only)")
             impl["data"] = [x if j else "unjudged" for j, x in zip(judged, impl["data"])]
         mask = lambda data: [x if j else "unjudged" for j, x in zip(judged, data)]
@@ -1005,7 +1144,30 @@ class C11(Prop):
             model["meta"] = spec["meta"] = {k: True for k in impl["meta"]}
             feats |= {"meta:" + k for k in impl["meta"]}
         feats |= self.plain_feats(case, fq0)
+        outside = self.outside(case)
+        if outside:  # no clause of the property speaks about this call: a difference from the model is recorded, not judged
+            if core.canon(impl) != core.canon(model):
+                feats.add("outside:differs-from-model(recorded only)")
+            return outcome(impl, model, spec, spec_ok=True, model_ok=True, undetermined=True, hyp=False,
+                           features=feats | {"outside:" + o + "(recorded only)" for o in outside})
         return outcome(impl, model, spec, features=feats if NONTRIVIAL & feats else [])
+
+    @staticmethod
+    def outside(case):
+        """reasons why the call lies outside the property's quantifier or in a choice its text leaves open"""
+        out = []
+        arrs, ndim = case["arrays"], case["ndim"]
+        if ndim > 3:
+            out.append("more-than-3-dimensions")
+        if any(not -2 ** 63 <= v < 2 ** 63 for a in arrs for o, s in zip(a["off"], a["shape"]) for v in (o, o + s)):
+            out.append("offset-beyond-int64")
+        full = [a for a in arrs if 0 not in a["shape"]]
+        if len(full) < len(arrs):
+            # is an image without pixels part of "their bounding box"?  judged only where it makes no difference
+            box = lambda l: [(min(a["off"][k] for a in l), max(a["off"][k] + a["shape"][k] for a in l)) for k in range(ndim)]
+            if not full or box(full) != box(arrs):
+                out.append("empty-image-decides-the-box")
+        return out
 
     def feed(self, register, case, ctx, descs0, impl, model, spec, feats):
         """tiling: the images are merged once more (fill NaN), that result is handed in as the first image of a second
